@@ -325,12 +325,11 @@ def labels_of_scenario(sc):
     def sig(sid, kind, n, eos):
         return "(%d, (%d, %d, %s))" % (sid, kind, n, common.coq_bool(eos))
 
-    pend = None   # a pop waiting for its codec.buffer_data (tells which slot the frame went to)
+    UNK = 4294967295
+    sched = set()   # streams whose next popped RST_STREAM was made from a scheduled reset
     for st in sc["trace"]:
         for e in st.get("ev", []):
             name, a = e[0], e[2:]
-            if name not in FAMILY:
-                continue
             if name == "store.insert":
                 live.add(a[0])
                 add("LNew %d" % a[0])
@@ -343,48 +342,45 @@ def labels_of_scenario(sc):
                 o = off.get(sid, 0)
                 ok = streaming == 1 and sz <= 2147483647
                 add("LSendData %d %s (patt %d %d %d %d) %s" % (sid, common.coq_bool(streaming), sid, role_who, o, min(sz, 3000000), common.coq_bool(eos)),
-                    "(Some (%d, %d))" % (a[9], a[14]) if len(a) > 14 else None, None)
+                    "(Some (%d, %d))" % (a[9], UNK), None)
                 if ok:
                     off[sid] = o + sz
             elif name == "prio.queue_frame":
-                # sid, kind (1 headers, 2 push promise, 3 reset), eos, informational, buffered, queue length, promised/reason
-                sid, kind, eos, info = a[1], a[2], a[3], a[4]
+                sid, kind, eos, info, buffered, extra = a[1], a[2], a[3], a[4], a[5], a[6]
                 if kind == 1:
                     f = "(FHeaders %s [] %s)" % ("HkInfo" if info else "HkHead", common.coq_bool(eos))
                 elif kind == 2:
-                    f = "(FPush %d [])" % a[7]
+                    f = "(FPush %d [])" % extra
                 elif kind == 3:
-                    f = "(FReset %d)" % a[7]
+                    f = "(FReset %d)" % extra
                 else:
-                    continue
-                add("LQueue %d %s" % (sid, f), "(Some (%d, %d))" % (a[5], a[6]))
-            elif name in ("prio.clear_queue",):
+                    continue          # DATA: reported by prio.send_data
+                add("LQueue %d %s" % (sid, f), "(Some (%d, %d))" % (buffered, UNK))
+            elif name == "prio.clear_queue":
                 add("LClear %d" % a[1])
-            elif name == "prio.pop_scheduled_reset":
-                pass  # its clear_queue follows as its own event
             elif name == "prio.pop_data":
                 sid, avail, win, sz, max_len, ln, eos = a[1], a[7], a[6], a[12], a[13], a[14], a[15]
                 eos_out = bool(eos) and ln >= sz
-                add("LPop %d %d %s %s" % (sid, max_len, Zs(avail), Zs(win)), "(Some (%d, %d))" % (a[9], a[16] + 1) if len(a) > 16 else None,
+                add("LPop %d %d %s %s" % (sid, max_len, Zs(avail), Zs(win)), "(Some (%d, %d))" % (a[9], UNK),
                     "(Some [%s])" % sig(sid, 0, ln, eos_out))
+            elif name == "prio.pop_sched_reset":
+                sched.add(a[1])
             elif name == "prio.pop_other":
-                # sid, kind (1 headers 2 push 3 reset-queued 4 reset-scheduled), eos, buffered, queue length after
-                sid, kind, eos = a[1], a[2], a[3]
-                if kind == 4:
-                    add("LPopReset %d %d" % (sid, a[6]), None, "(Some [%s])" % sig(sid, 3, 0, False))
+                sid, kind, eos, buffered, extra = a[1], a[2], a[3], a[4], a[5]
+                if kind == 3 and sid in sched:
+                    sched.discard(sid)
+                    add("LPopReset %d %d" % (sid, extra), None, "(Some [%s])" % sig(sid, 3, 0, False))
+                elif kind in (1, 2, 3):
+                    add("LPop %d 0 0%%Z 0%%Z" % sid, "(Some (%d, %d))" % (buffered, UNK),
+                        "(Some [%s])" % sig(sid, kind, 0, bool(eos) if kind == 1 else False))
                 else:
-                    add("LPop %d 0 0%%Z 0%%Z" % sid, "(Some (%d, %d))" % (a[4], a[5] + 1),
-                        "(Some [%s])" % sig(sid, {1: 1, 2: 2, 3: 3}[kind], 0, bool(eos) if kind == 1 else False))
+                    add("LUnexpected_pop_kind_%d" % kind)
             elif name == "prio.pop_drop_push":
                 add("LPopDropPush %d" % a[1])
             elif name == "prio.reclaim":
                 add("LReclaim")
             elif name == "codec.data_done":
                 add("LFlushed")
-            elif name == "codec.buffer_data":
-                if chain is None:
-                    # chained == (len >= chain_threshold): the pipe is not vectored -> 1024
-                    chain = 1024
     fin = "None"
     for st in sc["trace"][-1:]:
         sn = st.get("snap")
